@@ -10,7 +10,7 @@ EXPLANATION = ("static analysis (MIR abstract interpretation): Claim and the Rew
                "is_claim; the per-epoch reward is floor(emission * user / total) (round-down only); the emission window is "
                "[start_from, min(until, end-1)] and farms not started are skipped")
 ASSUMPTIONS = ["schedule independence relates two histories and is not decided (its known breach, F3, was repaired)", "weights' numeric values are not decided"]
-TECHNIQUE = "static analysis: provenance agreement of two entry points, non-interference on a constant argument, rounding-direction classes"
+TECHNIQUE = "static analysis: provenance agreement of two entry points, non-interference on a constant argument, rounding-direction classes, enumeration-bound provenance and sibling agreement, single-floor rule, loop early-exit lint"
 LEVEL_TEXT = "Structural obligations over all paths of Claim, Rewards and calculate_rewards; exhaustive over CFG paths."
 LEVEL_NOTE = "Not decided: equality of totals across claim schedules; under-payment bounds."
 FM = "farm_manager"
